@@ -559,22 +559,25 @@ def r13_4_conditional(model: Model, rep: Report, classes) -> None:
         slf = typed(ev, "self", ("cls", f.cls.qname))
         paths = return_paths(ev.run(f, {"ranges": R}, self_term=slf))
         cons = construct(f, "denominator-range")
-        if len(paths) != 1 or not (paths[0].value[0] == "meth" and paths[0].value[2] == "normalize_marginalize"):
+        if not paths or not all(p_.value[0] == "meth" and p_.value[2] == "normalize_marginalize" for p_ in paths):
             rep.unknown("R13.4", cons, "conditional does not reduce to normalize_marginalize(complement)", loc(f))
             continue
-        comp = dict(paths[0].value[4]).get("ranges", paths[0].value[3][0] if paths[0].value[3] else None)
-        # complement must be  {base(c) for c in vars(self) [if not Intervention]} ∖ bases(ranges)
         sa = SetAlg()
         problems = []
-        if not (comp[0] == "diff" and mentions(comp[2], R)):
-            problems.append("the kept variables are not subtracted from the summation set")
-        src = [s for s in subterms(comp[1] if comp[0] == "diff" else comp) if s[0] == "meth" and s[2] == "_iter_variables"]
-        if not src:
-            problems.append("summation set is not derived from the expression's variables")
+        comp = None
+        for p_ in paths:
+            comp = dict(p_.value[4]).get("ranges", p_.value[3][0] if p_.value[3] else None)
+            # complement must be  {base(c) for c in vars(self) [if not Intervention]} ∖ bases(ranges)
+            if not (comp[0] == "diff" and mentions(comp[2], R)):
+                problems.append("the kept variables are not subtracted from the summation set")
+            src = [s for s in subterms((comp[1] if comp[0] == "diff" else comp, p_.conds))
+                   if (s[0] == "meth" and s[2] in ("_iter_variables", "get_variables")) or (s[0] == "recurse" and str(s[1]).endswith("_get_free_variables"))]
+            if not src:
+                problems.append("summation set is not derived from the expression's variables")
         if problems:
-            rep.refuted("R13.4", cons, "; ".join(problems), loc(f))
+            rep.refuted("R13.4", cons, "; ".join(sorted(set(problems))), loc(f))
         else:
-            rep.proven("R13.4", cons, loc=loc(f), sample={"complement": short(show(comp), 200)})
+            rep.proven("R13.4", cons, loc=loc(f), sample={"complement": short(show(comp), 200), "paths": len(paths)})
         users = [k for k in classes if k.find_method("conditional") is f]
         if any(k.name == "Sum" for k in users):
             _bound_rules(model, rep, f)
